@@ -1261,3 +1261,69 @@ def rule_sk_relay(cx, rep, port):
         rep.holds('select_simple verdict', fd, 'returns false exactly when writer.write() refused ({} refusing, {} accepting path(s)); one write per call'.format(n_ref, n_ok))
     else:
         rep.undecided('select_simple verdict', fd, 'refusing / accepting paths not both found')
+
+
+def rule_sk_mainrun(cx, rep, port):
+    """compile_and_run evaluates the generated main loop on every path that completes normally: no shortcut skips the scan of the input"""
+    p = cx.port(port)
+    mod = cx.engine_mod(port)
+    car = p.func(mod, 'compile_and_run')
+    memo = {}
+
+    def evaluates(call):
+        return isinstance(call, ast.Call) and dotted(call.func) in ('exec', 'eval')
+
+    def must_eval(fd, depth=0):
+        """True: every normal exit of fd is preceded by the evaluation; False + witness: some normal exit is not; None: fd never evaluates"""
+        if id(fd) in memo:
+            return memo[id(fd)]
+        memo[id(fd)] = (None, None)
+
+        def carries(n):
+            def pred(x):
+                if evaluates(x):
+                    return True
+                if depth < 2 and isinstance(x, ast.Call) and isinstance(x.func, ast.Name):
+                    g_ = p.func(mod, x.func.id, required=False) or p.func(mod, '{}.{}'.format(fd.name, x.func.id), required=False)
+                    if g_ is not None and g_ is not fd and must_eval(g_, depth + 1)[0] is True:
+                        return True
+                return False
+            return cfgmod.node_contains(n, pred)
+        g = cfgmod.CFG(fd)
+        marked = [n for n in g.nodes if n.ast is not None and carries(n)]
+        if not marked:
+            memo[id(fd)] = (None, None)
+            return memo[id(fd)]
+        ids = {n.id for n in marked}
+        # a test hook: a parameter with a false default that no library call site sets (`unit_test_mode`) stays false
+        params = fd.args.args
+        defaults = dict(zip([a.arg for a in params[len(params) - len(fd.args.defaults):]], fd.args.defaults))
+        off = {a for a, d in defaults.items() if isinstance(d, ast.Constant) and d.value in (False, None)}
+        for m_ in p.modules.values():
+            for c_ in ast.walk(m_):
+                if isinstance(c_, ast.Call) and (dotted(c_.func) or '').split('.')[-1] == fd.name:
+                    names_ = [a.arg for a in params]
+                    for i_, a_ in enumerate(c_.args):
+                        if i_ < len(names_):
+                            off.discard(names_[i_])
+                    for k_ in c_.keywords:
+                        off.discard(k_.arg)
+
+        def edge_ok(n, s_, lab):
+            t_ = getattr(n, 'ast', None)
+            if n.kind == 'test' and isinstance(t_, ast.Name) and t_.id in off and lab == 'T':
+                return False
+            return True
+        path = g.find_path(g.entry, lambda n: n is g.exit, avoid=lambda n: n.id in ids, edge_ok=edge_ok)
+        memo[id(fd)] = (path is None, path)
+        return memo[id(fd)]
+    verdict, path = must_eval(car)
+    if verdict is None:
+        rep.undecided('main loop evaluation', car, 'no exec/eval of the generated code is reachable from compile_and_run (through at most two helper calls)')
+        return
+    if verdict:
+        rep.holds('main loop evaluation', car, 'every normally completing path of compile_and_run passes the exec/eval of the generated main loop')
+    else:
+        steps = [n for n in path if getattr(n, 'ast', None) is not None]
+        last = steps[-1] if steps else None
+        rep.violated('main loop evaluation', last.ast if last is not None else car, 'compile_and_run can complete normally without evaluating the generated main loop (path: {}): for such a query no input record is read and nothing is written, whatever the query asks for'.format(' -> '.join(node_text(n.ast, 50) for n in steps[-3:])))
